@@ -1,5 +1,6 @@
 # C05 - special characters survive encoding; invalid output is an error, never silent
 PROP = {
+    "gen": ["setters", "pure"],
     "title": "Special characters survive encoding; invalid output is an error, never silent",
     "run_modules": ["RunEsc"],
     "n": {"quick": 3000, "thorough": 50000},
